@@ -38,7 +38,7 @@ def _mc_jobs(ctx):
     """(kind, module, cfg, workers, label): the TLC runs on the specifications themselves."""
     if ctx.quick:
         jobs = [("mc", "Bounds", "MC_Bounds_q.cfg", 4,
-                 "direct: all 5^6 type assignments, thicknesses <<1,2,2,1,1,2>>; from_uniform_bound: 3 base types (one unknown) x 3^6 overrides x thickness 1..2; volume 5x6x7"),
+                 "direct: all 13^3 properly paired type assignments + all 6084 with exactly one one-sided axis (of 5^6), thicknesses <<1,2,2,1,1,2>>; from_uniform_bound: 3 base types (one unknown) x 3^6 overrides x thickness 1..2; volume 5x6x7"),
                 ("mc", "BoundsExtend", "MC_BoundsExtend_q.cfg", 2,
                  "extend_material_to_pml: every PML subset of the six faces, thickness 1..2, EVERY processing order, 4x4x3 cells")]
     else:
@@ -209,6 +209,9 @@ def _enc(v, state):
     if v is None:
         return -1
     x = float(v) * SCALE
+    if x != x or abs(x) > 2**30:                      # NaN / inf / beyond TLC's integers: certainly none of the configured values
+        state["dev"] = 10**9
+        return -3
     r = round(x)
     state["dev"] = max(state["dev"], min(int(abs(x - r) * 1e9), 10**9))
     return int(r)
@@ -344,6 +347,11 @@ def _observe_extend(case):
                 objs.append(o)
                 cons.append(o.set_grid_coordinates(axes=(0, 1, 2), sides=("-", "-", "-"), coordinates=tuple(m["lo"])))
         oc, arrays, _, _cfg2, _ = fdtdx.place_objects(objs, cfg, cons)
+    except Exception as e:  # noqa: BLE001 - the scene itself could not be built: not an observation of the subject
+        rec["err"] = "setup"
+        rec["errmsg"] = f"{type(e).__name__}: {e}"[:200]
+        return rec
+    try:
         with warnings.catch_warnings(record=True) as w:
             warnings.simplefilter("always")
             out = fdtdx.extend_material_to_pml(oc, arrays)
